@@ -783,6 +783,9 @@ def r7(ctx):
         after = s1.fields.get('regions')
         if name != '__init__' and not same(after, before) and 'notaregion' in show(after, 400):
             probs.append(f'the rejected member is in the list afterwards: {show(after, 120)}')
+        elif name != '__init__' and 'TypeError' in definite and not same(after, before):
+            probs.append(f'the rejected call has changed the list (now {show(after, 120)}): an input that is refused must leave '
+                         'the object as it was')
         s2, before2, out2, definite2, possible2 = run(name, good_args, start)
         after2 = show(s2.fields.get('regions'), 400)
         if definite2 or not all(k in after2 for k in (['good1', 'good2'])):
@@ -792,48 +795,32 @@ def r7(ctx):
         else:
             ctx.ok(construct, 'a non-region member raises TypeError and leaves the list as it was; regions are stored')
     ctx.need(n >= 4, 'list-adding methods', f'only {n}')
-    # one-shot iterables: in the method or the helper that validates the items of a parameter in a loop, the parameter is
-    # materialised (list(...)/tuple(...)) before the loop, and the materialised list is what is stored
+    # one-shot iterables: the same methods, given a generator of two regions (consumed once: a second pass over it finds
+    # nothing), must store both regions
+    from ..model import FuncInfo
+    from ..vg import GenV
+    gnode = ast.parse('def _two(a, b):\n    yield a\n    yield b\n').body[0]
     n2 = 0
-    seen = set()
     for name in ('__init__', 'extend'):
         f = ci.methods.get(name)
         if f is None:
             continue
-        scopes = [f] + [g for c in calls_in(f.node) for g in (m.resolve_call(f, c) or ()) if g.module == f.module and g is not f]
-        for g in scopes:
-            if g.qualname in seen:
-                continue
-            fn = g.node
-            params = set(func_params(fn))
-            cfg = CFG(fn, exceptions=False)
-            loops = [(i, st, st.iter.id) for i, st in cfg.stmt.items() if isinstance(st, ast.For) and isinstance(st.iter, ast.Name)
-                     and st.iter.id in params and any(isinstance(x, ast.Call) and call_name(x) == 'isinstance' for x in ast.walk(st))]
-            # a validating comprehension / generator expression (all(isinstance(x, Region) for x in regions)) counts too
-            for i, st in cfg.stmt.items():
-                hay = st.test if cfg.kind[i] == 'test' else (st if cfg.kind[i] == 'stmt' else None)
-                if hay is None or isinstance(st, ast.For):
-                    continue
-                for comp in ast.walk(hay):
-                    if isinstance(comp, (ast.GeneratorExp, ast.ListComp, ast.SetComp)) and any(
-                            isinstance(x, ast.Call) and call_name(x) == 'isinstance' for x in ast.walk(comp)):
-                        for gen in comp.generators:
-                            if isinstance(gen.iter, ast.Name) and gen.iter.id in params:
-                                loops.append((i, st, gen.iter.id))
-            for i, st, aname in loops:
-                seen.add(g.qualname)
-                n2 += 1
-                mats = [j for j, s3 in cfg.stmt.items() if cfg.kind[j] == 'stmt' and isinstance(s3, ast.Assign)
-                        and norm(s3.targets[0]) == aname and isinstance(s3.value, ast.Call)
-                        and (call_name(s3.value) or '') in ('list', 'tuple') and s3.value.args and norm(s3.value.args[0]) == aname]
-                if mats and cfg.must_pass([i], mats):
-                    ctx.ok(f'{g.qualname.split(":")[1]}:{aname} materialised', 'list(...) before the validating loop')
-                else:
-                    ctx.bad(f'Regions.{name}', f'iterable-read-twice:{aname}',
-                            f'`{aname}` is iterated to validate its items and then stored: a one-shot iterator/generator passes the '
-                            'check and is empty when it is stored (the regions are silently lost); it must be materialised once '
-                            '(list(...)) before both', g.loc(st))
-    ctx.need(n2 >= 1, 'validating loops', 'no loop validating the items of a list parameter found')
+        n2 += 1
+        ev = evaluator(ctx)
+        g1, g2, bad = fresh(ev)
+        gfi = FuncInfo('_two', f'{ci.module}:_two', ci.module, None, gnode, ci.path)
+        self_ = Obj('Regions', {'regions': Tup((), 'list')}, 'self', ci)
+        out = ev.run(f, [self_, GenV(gfi, [g1, g2], {}, 1)], {})
+        after = show(self_.fields.get('regions'), 400)
+        if out.raises or not ('good1' in after and 'good2' in after):
+            ctx.bad(f'Regions.{name}', 'iterable-read-twice:regions',
+                    f'given a one-shot iterator of two regions the list afterwards is {after[:100]}'
+                    f'{" (raises " + str(sorted({n_ for _, n_, _ in out.raises})) + ")" if out.raises else ""}: the iterator is read '
+                    'more than once (validated in one pass, stored in another), so the regions are silently lost; it must be '
+                    'materialised once (list(...)) before both', f.loc())
+        else:
+            ctx.ok(f'Regions.{name}: one-shot iterator', 'both regions of a generator argument are stored')
+    ctx.need(n2 >= 2, 'one-shot iterator cases', f'only {n2}')
 
 
 def r8(ctx):
